@@ -71,7 +71,7 @@ type simMode struct {
 	StopOn  int
 }
 
-var simModes = []simMode{{"pass", -1}, {"pass", 0}, {"count", -1}, {"two", -1}}
+var simModes = []simMode{{"pass", -1}, {"pass", 0}, {"count", -1}, {"two", -1}, {"three", -1}}
 
 // ---- worker processes (reference traces, library path) ---------------------------------------------
 
